@@ -36,10 +36,14 @@ func suiteC20(r *Run) {
 		sawBlocked := false
 		done := false
 		pendingSend := map[string]bool{}
+		recvIssued := false // the client has called RecvMsg at least once
 		csSendOpen, hReturned := false, false // a client SendMsg without a result yet; the handler function has returned
 		for _, st := range sc.steps {
 			if st.actor == "cs" && st.op == "send" {
 				csSendOpen = true
+			}
+			if st.actor == "cr" && st.op == "recv" {
+				recvIssued = true
 			}
 			if _, ok := evRes(st.evs, "cs"); ok {
 				csSendOpen = false
@@ -59,8 +63,12 @@ func suiteC20(r *Run) {
 			} else if st.actor == "cs" || st.actor == "h" {
 				pendingSend[st.actor] = false
 			}
-			if st.actor == "cr" && st.op == "header" {
-				headerCalls = 1 // the first Header() may dequeue (peek) one data frame
+			for _, e := range st.evs {
+				// a Header() that found no headers frame has looked at the first frame of the stream and may hold (peek) one
+				// data frame; one that returned the handler's headers took exactly the headers frame and nothing else
+				if e == "cr:md:-" {
+					headerCalls = 1
+				}
 			}
 			if st.actor == "env" || (st.actor == "h" && st.op == "return") {
 				done = true // the peer finishes / the context ends: sends may now complete
@@ -88,7 +96,8 @@ func suiteC20(r *Run) {
 			}
 			// (on a single-response method the client's look-ahead for a second message may hold one more frame)
 			lookAhead := 0
-			if sc.kind == "cstream" {
+			if sc.kind == "cstream" && recvIssued {
+				// (only a RecvMsg looks ahead; Header() and Trailer() never do)
 				lookAhead = 1
 				if sawSecondResponseError {
 					lookAhead = 2 // the look-ahead took the second frame off the channel and rejected it
